@@ -538,7 +538,9 @@ class SVGPath(SVGShape, SVGCommandSeq):
             target = copy.deepcopy(self)
 
         target.d = " ".join(
-            subpath for subpath in self.subpaths() if SVGPath(d=subpath).might_paint()
+            subpath
+            for subpath in self.subpaths()
+            if dataclasses.replace(self, d=subpath).might_paint()
         )
 
         return target
